@@ -28,6 +28,19 @@ class Raised(Exception):
         self.node = node
 
 
+class AExc(Sym):
+    """the exception object bound by `except K as ex`: its class name and the location stamped on it so far"""
+
+    def __init__(self, cls_name: str, path: Any = None, line: Any = None):
+        super().__init__(cls_name=cls_name, path=path, line=line)
+
+    def set_error_location_if_unknown(self, path: Any = None, line: Any = None) -> None:
+        if self.path is None and path is not None:
+            self.path = path
+        if self.line is None and line is not None:
+            self.line = line
+
+
 class _Return(Exception):
     def __init__(self, value: Any):
         self.value = value
@@ -60,6 +73,8 @@ class Evaluator(Folder):
 
     # ------------------------------------------------------------------ expressions: a few additions to the folder
     def _fold(self, e: ast.expr) -> Any:
+        if isinstance(e, ast.Call) and dotted(e.func) == "set" and len(e.args) <= 1 and not e.keywords and "set" not in self.env:
+            return set(self.fold(e.args[0])) if e.args else set()  # mutable, shared by reference as in the evaluated program
         if isinstance(e, ast.Yield):
             self.yielded.append(self.fold(e.value) if e.value is not None else None)
             return None
@@ -169,10 +184,30 @@ class Evaluator(Folder):
             raise _Return(self.fold(st.value) if st.value is not None else None)
         elif isinstance(st, ast.Raise):
             name = "?"
-            if st.exc is not None:
-                f = st.exc.func if isinstance(st.exc, ast.Call) else st.exc
-                name = (dotted(f) or "?").split(".")[-1]
-            raise Raised(name, st)
+            exc_obj = None
+            if st.exc is None:
+                cur = self.env.get("__current_exception__")
+                if isinstance(cur, AExc):
+                    exc_obj, name = cur, cur.cls_name
+            else:
+                if isinstance(st.exc, ast.Name) and isinstance(self.env.get(st.exc.id), AExc):
+                    exc_obj = self.env[st.exc.id]
+                    name = exc_obj.cls_name
+                else:
+                    f = st.exc.func if isinstance(st.exc, ast.Call) else st.exc
+                    name = (dotted(f) or "?").split(".")[-1]
+                    if isinstance(st.exc, ast.Call):
+                        kw = {}
+                        for k in st.exc.keywords:
+                            if k.arg in ("path", "line"):
+                                try:
+                                    kw[k.arg] = self.fold(k.value)
+                                except Unfoldable:
+                                    pass
+                        exc_obj = AExc(name, **kw)
+            r = Raised(name, st)
+            r.exc = exc_obj  # type: ignore
+            raise r
         elif isinstance(st, (ast.Assert, ast.Pass, ast.Import, ast.ImportFrom, ast.FunctionDef)):
             if isinstance(st, ast.FunctionDef):
                 from .fold import _LocalFn
@@ -180,6 +215,8 @@ class Evaluator(Folder):
                 if any(isinstance(n, (ast.Yield, ast.YieldFrom)) for n in ast.walk(st)):
                     raise Unfoldable("local generator " + st.name)
                 self.env[st.name] = _LocalFn(st, self.env)
+        elif isinstance(st, ast.ClassDef):
+            self.env[st.name] = LocalClass(st, self)
         elif isinstance(st, ast.Delete):
             for t in st.targets:
                 if isinstance(t, ast.Name):
@@ -198,8 +235,10 @@ class Evaluator(Folder):
                         ts = h.type.elts if isinstance(h.type, ast.Tuple) else [h.type]
                         names = [(dotted(t) or "?").split(".")[-1] for t in ts]
                     if h.type is None or r.cls_name in names or self._is_subclass(r.cls_name, names):
+                        ex_obj = getattr(r, "exc", None) or AExc(r.cls_name)
                         if h.name:
-                            self.env[h.name] = Sym(cls_name=r.cls_name)
+                            self.env[h.name] = ex_obj
+                        self.env["__current_exception__"] = ex_obj
                         self._block(h.body)
                         break
                 else:
@@ -210,7 +249,20 @@ class Evaluator(Folder):
                 pass
             self._block(st.finalbody)
         elif isinstance(st, ast.With):
-            raise Unfoldable("with statement")
+            entered = []
+            for item in st.items:
+                cm = self.fold(item.context_expr)
+                if not (isinstance(cm, Abstract) and hasattr(cm, "__enter__") and hasattr(cm, "__exit__")):
+                    raise Unfoldable("with statement over " + unparse(item.context_expr))
+                v = cm.__enter__()
+                entered.append(cm)
+                if item.optional_vars is not None:
+                    self._assign(item.optional_vars, v)
+            try:
+                self._block(st.body)
+            finally:
+                for cm in reversed(entered):
+                    cm.__exit__(None, None, None)
         else:
             raise Unfoldable("statement " + type(st).__name__)
 
@@ -239,11 +291,23 @@ class Evaluator(Folder):
             except Unfoldable:
                 recv = NotImplemented
             if isinstance(recv, list) and m in ("append", "extend", "insert", "sort", "reverse", "clear", "pop", "remove"):
-                getattr(recv, m)(*[self.fold(a) for a in e.args])
+                try:
+                    getattr(recv, m)(*[self.fold(a) for a in e.args])
+                except (ValueError, IndexError) as ex:
+                    raise Raised(type(ex).__name__, e)
                 return
-            if isinstance(recv, (set, frozenset)) and m in ("add", "update", "discard", "remove", "clear") and isinstance(e.func.value, ast.Name):
+            if isinstance(recv, set) and m in ("add", "update", "discard", "remove", "clear", "pop", "difference_update", "intersection_update"):
+                try:
+                    getattr(recv, m)(*[self.fold(a) for a in e.args])  # shared with whoever else holds this set
+                except KeyError:
+                    raise Raised("KeyError", e)
+                return
+            if isinstance(recv, frozenset) and m in ("add", "update", "discard", "remove", "clear") and isinstance(e.func.value, ast.Name):
                 s = set(recv)
-                getattr(s, m)(*[self.fold(a) for a in e.args])
+                try:
+                    getattr(s, m)(*[self.fold(a) for a in e.args])
+                except KeyError:
+                    raise Raised("KeyError", e)
                 self.env[e.func.value.id] = s
                 return
             if isinstance(recv, dict) and m in ("update", "setdefault", "pop", "clear"):
@@ -386,6 +450,24 @@ def construct(ctx: Any, cls: ClassInfo, *args: Any, hook: Any = None, **kwargs: 
     o = AObj(cls, ctx)
     stmts, chain = flatten_init(repo, cls, inline_props=False, node_of=ctx.inl)
     if not chain:
+        if any("dataclass" in (dotted(d.func) if isinstance(d, ast.Call) else dotted(d) or "") for d in cls.node.decorator_list):
+            # a dataclass: the generated constructor stores its fields (class-body annotations, in order)
+            fields = []
+            for k in reversed([k for k in repo.mro(cls) if isinstance(k, ClassInfo)]):
+                for st in k.node.body:
+                    if isinstance(st, ast.AnnAssign) and isinstance(st.target, ast.Name) and "ClassVar" not in ast.unparse(st.annotation):
+                        if st.target.id not in [f_[0] for f_ in fields]:
+                            fields.append((st.target.id, st.value))
+            if len(args) > len(fields):
+                raise Unfoldable("too many constructor arguments for %s" % cls.name)
+            vals = dict(zip([f_[0] for f_ in fields], args))
+            vals.update(kwargs)
+            for name, default in fields:
+                if name not in vals:
+                    if default is None:
+                        raise Unfoldable("constructor argument %s of %s not given" % (name, cls.name))
+                    vals[name] = Folder({}, repo, cls.module, cls, hook).fold(default)
+                o.__dict__[name] = vals[name]
         return o
     init = chain[0]
     a = ctx.inl(init).args
@@ -585,3 +667,82 @@ def path_hook(base_hook: Any = None) -> Any:
         return NotImplemented
 
     return hook
+
+
+# ----------------------------------------------------------------------------------------------------------------------
+class LocalClass(Abstract):
+    """a class defined inside the evaluated function: instances evaluate its methods with the defining environment"""
+
+    def __init__(self, node: ast.ClassDef, ev: Evaluator):
+        self.node = node
+        self.env = ev.env
+        self.ctx = (ev.repo, ev.mod, ev.cls, ev.hook)
+        self.methods = {n.name: n for n in node.body if isinstance(n, ast.FunctionDef)}
+        self._isa_ = frozenset([node.name] + [(dotted(b) or "?").split(".")[-1] for b in node.bases])
+
+    def __call__(self, *args: Any, **kwargs: Any) -> Any:
+        inst = LocalInstance(self)
+        if "__init__" in self.methods:
+            inst._call("__init__", list(args), kwargs)
+        return inst
+
+
+class LocalInstance(Sym):
+    def __init__(self, cls: LocalClass):
+        super().__init__()
+        self.__dict__["_lcls_"] = cls
+        self.__dict__["_isa_"] = cls._isa_
+
+    def _call(self, name: str, args: List[Any], kwargs: Dict[str, Any]) -> Any:
+        cls = self._lcls_
+        node = cls.methods[name]
+        a = node.args
+        params = [x.arg for x in a.posonlyargs + a.args]
+        env = dict(cls.env)
+        env[params[0]] = self
+        if len(args) > len(params) - 1:
+            raise Unfoldable("too many arguments for %s.%s" % (cls.node.name, name))
+        env.update(zip(params[1:], args))
+        env.update(kwargs)
+        repo, mod, kls, hook = cls.ctx
+        # free variables are the defining function's (late binding): look-ups fall back to the shared environment
+        ev = Evaluator(_Chain(env, cls.env), repo, mod, kls, hook)
+        return ev.run(body_without_docstring_(node))
+
+    def __getattr__(self, name: str) -> Any:
+        cls = self.__dict__.get("_lcls_")
+        if cls is not None and name in cls.methods:
+            return lambda *a, **k: self._call(name, list(a), k)
+        raise AttributeError(name)
+
+
+class _Chain(dict):
+    """local bindings over a shared outer environment (reads fall through; writes stay local unless the name is outer-only and
+    mutated in place, which is what closures over mutable containers do)"""
+
+    def __init__(self, local: Dict[str, Any], outer: Dict[str, Any]):
+        super().__init__(local)
+        self.outer = outer
+
+    def __missing__(self, k: str) -> Any:
+        return self.outer[k]
+
+    def __contains__(self, k: object) -> bool:
+        return dict.__contains__(self, k) or k in self.outer
+
+    def get(self, k: Any, d: Any = None) -> Any:
+        if dict.__contains__(self, k):
+            return dict.__getitem__(self, k)
+        return self.outer.get(k, d)
+
+
+def aobj_eq(f: Folder, left: Any, right: Any) -> Any:
+    """left == right where one side is an abstract instance of a repository class that defines __eq__"""
+    for a, b in ((left, right), (right, left)):
+        if type(a).__name__ == "AObj":
+            m = a._ctx_.repo.lookup_method(a._cls_, "__eq__")
+            if m is not None:
+                r = _BoundMethod(a, m).call(f, [b], {})
+                if not (isinstance(r, ast.AST) or r is NotImplemented or (isinstance(r, Sym) and getattr(r, "_kind_", "") == "NotImplemented")):
+                    return r
+    return NotImplemented
